@@ -1,7 +1,7 @@
 SPECIFICATION Spec
 CONSTANTS
-  Layout = "two"
-  Depth = 9
+  Layout = "mixedref"
+  Depth = 0
   NP <- MCNP
   FitFlag <- MCFit
   ParMode <- MCMode
@@ -9,7 +9,7 @@ CONSTANTS
   UMode <- MCUMode
   ULo <- MCULo
   UHi <- MCUHi
-  WriteBy = "prior"
+  WriteBy = "parmode"
   Lo <- MCLo
   Hi <- MCHi
   Val0 <- MCVal0
@@ -24,11 +24,21 @@ CONSTANTS
   ChemLimit = 50
   TLow = 1
   THigh = 3
-  Faults = {"InvalidModel"}
-  NaNFaults = {"NaNAll"}
+  Faults = {"InvalidModel", "InvalidChemistry", "InvalidTemperature"}
+  NaNFaults = {"NaNAll", "NaNSome"}
   NaNBins <- MCNaNBins
   AllNaN = "nan"
   Caught = {"InvalidModel", "InvalidChemistry", "InvalidTemperature"}
   ZeroChi = "value"
+VIEW view
+INVARIANT ValidEqualsGaussian
+INVARIANT InvalidNeverFinite
+INVARIANT PartialSkipsOrNaN
+INVARIANT NeverRaises
+INVARIANT WrittenIsPriorOfX
+INVARIANT OnlyFittedWritten
+INVARIANT OrderIsFitOrder
+INVARIANT DeclarationOrder
+INVARIANT FitsInv
+PROPERTY UnfittedFrozen
 CHECK_DEADLOCK FALSE
-CONSTRAINT EmitHist
